@@ -399,6 +399,7 @@ func init() {
 		ruleTrimCutset(c, "TRIM-CUTSET", p.ModulePkgs())
 		ruleFirstDecides(c, "FIRST-DECIDES", p.ModulePkgs())
 		ruleFormatData(c, "FORMAT-DATA", p.ModulePkgs())
+		ruleNilBreak(c, "NIL-ELEMENT-BREAK", p.ModulePkgs())
 		for _, o := range c.Obls {
 			fmt.Printf("%s\t%s\t%s\t%v\t%s\n", o.Pos, o.Rule, o.Instance, o.OK, short(o.Msg, 160))
 		}
